@@ -14,7 +14,7 @@ CONSTANTS
   MaxCtr = 1
   LoadCap = 2
   MaxReq = 3
-  CmdsOf <- C11Spell
+  CmdsOf <- C11Spell3
   Export = TRUE
 SPECIFICATION Spec
 INVARIANT TypeOK
